@@ -772,6 +772,10 @@ def tokenize(content: str, lenient: bool = False) -> tuple[list[Token], list[Any
     # Compile all patterns
     compiled_patterns = [(re.compile(pattern), token_type) for pattern, token_type in TOKEN_PATTERNS]
 
+    # Offset of the first non-blank line: stripped YAML frontmatter is replaced by newlines to
+    # preserve line numbers, so a grammar sentinel that follows frontmatter is not at offset 0
+    document_start = len(content) - len(content.lstrip("\n"))
+
     while pos < len(content):
         # Issue #235: Check if current position is the start of a fence span
         # Emit FENCE_OPEN, LITERAL_CONTENT, FENCE_CLOSE tokens and skip past span
@@ -872,10 +876,10 @@ def tokenize(content: str, lenient: bool = False) -> tuple[list[Token], list[Any
         # Try to match token patterns
         matched = False
         for pattern, token_type in compiled_patterns:
-            # GRAMMAR_SENTINEL must only match at document start (position 0)
+            # GRAMMAR_SENTINEL must only match at document start (the first non-blank line)
             # to prevent silent data loss in nested assignments like NOTE::OCTAVE::5.1.0
-            if token_type == TokenType.GRAMMAR_SENTINEL and pos != 0:
-                continue  # Skip GRAMMAR_SENTINEL pattern if not at position 0
+            if token_type == TokenType.GRAMMAR_SENTINEL and pos != document_start:
+                continue  # Skip GRAMMAR_SENTINEL pattern if not at document start
 
             match = pattern.match(content, pos)
             if match:
